@@ -21,6 +21,8 @@ pub struct InFlight {
     pub init: String,
     pub path: Vec<Op>,
     pub op: Option<Op>,
+    /// free-form description of the call (model-free explorer)
+    pub note: Option<String>,
 }
 static WATCH: OnceLock<Vec<Mutex<Option<InFlight>>>> = OnceLock::new();
 pub fn watch_slots() -> &'static Vec<Mutex<Option<InFlight>>> {
@@ -325,6 +327,7 @@ pub fn explore(cfg: &RunCfg, known: &Known) -> Report {
                                 init: cfg.inits[root as usize].label(),
                                 path,
                                 op: None,
+                                note: None,
                             });
                         }
                         let before = if target & step::C13 != 0 {
